@@ -78,6 +78,30 @@ CLAIMED['C17'] = dict(
     technique='contract-based deductive verification: send() preconditions at call sites, symbolic execution of the '
               'real providers, z3/cvc5')
 
+CLAIMED['C16'] = dict(
+    text='Deductive proof with loop rules: qr_find_scp / modality_work_list_scp: for an arbitrary finite sequence of '
+         '(data set, status) pairs from the application the loop body is verified for an arbitrary iteration (exactly one '
+         'response with that status and that encoded data set on the request context), the loop-exit path sends exactly '
+         'one final Success response without data set; every store to a message that may already have been handed to the '
+         'lazy encoder is an ownership obligation. qr_find_scu / modality_work_list_scu: receive loop verified for an '
+         'arbitrary response: one (decoded data set | None, Status(code)) pair per response, continues only after '
+         'FF00/FF01, stops at the first non-pending response.',
+    ref='4/C16',
+    note=TRUST + 'application iterator finite; data sets opaque (dsutils codecs deterministic); transport of each message '
+         'is C06/C07; c_find wrapper not under contract (needs a live association)',
+    technique='contract-based deductive verification: loop invariants/havoc, ghost send trace, ownership monitor, z3/cvc5')
+CLAIMED['C19'] = dict(
+    text='Deductive proof with loop rules: qr_move_scp: arbitrary iteration of the sub-operation loop performs exactly one '
+         'store of the current data set on the destination association and sends exactly one pending response reporting '
+         'completed = k, remaining = total - k after the k-th sub-operation; loop exit (and the nothing-to-move case) '
+         'sends exactly one final response. qr_get_scu: arbitrary received message: a C-STORE request is answered exactly '
+         'once on its arrival context, correlated and with the handler status, and handed to the caller at most once; '
+         'pending C-GET responses are skipped; the final one ends the operation.',
+    ref='4/C19',
+    note=TRUST + 'destination association and its storage service are oracles; application supplies a finite list; '
+         'received context ids are negotiated ones',
+    technique='contract-based deductive verification: loop invariants/havoc, ghost traces, z3/cvc5')
+
 NOT_YET = {
 }
 
